@@ -332,7 +332,7 @@ func (m *Machine) loadElem(p *ElemPtrV) Val {
 func (m *Machine) storeElem(p *ElemPtrV, v Val) {
 	// backing-array aliasing is not modelled. In a function that is only swept for panic-freedom (trusted contract + sweep) a store
 	// through &slice[i] is over-approximated: every live sequence of the same element type may have changed content (lengths are kept).
-	if m.Top != nil && m.Top.C != nil && m.Top.C.Trusted && len(m.Top.C.Sweep) > 0 {
+	if m.Top != nil && m.Top.C != nil && (m.Top.C.Trusted && len(m.Top.C.Sweep) > 0 || m.Top.C.SliceHavoc) {
 		sq, ok := p.Seq.(*SeqV)
 		if !ok {
 			panic(unsupported("store through &coins[i]"))
